@@ -256,7 +256,10 @@ impl BreakerBase {
     /// Return true only if current goroutine successfully accomplished the transformation.
     pub fn from_open_to_half_open(&self, ctx: &EntryContext) -> bool {
         let mut state = self.state.lock().unwrap();
-        if *state == State::Open {
+        // `try_pass` checked the state and the retry time without the lock: in the meantime
+        // another request may have probed, failed and re-opened the breaker with a new retry
+        // time, so the retry time is checked again here, where it cannot change any more
+        if *state == State::Open && self.retry_timeout_arrived() {
             *state = State::HalfOpen;
             let listeners = state_change_listeners().lock().unwrap();
             for listener in &*listeners {
